@@ -692,9 +692,10 @@ class SolveNewmark(_BaseODE):
         N = 0.0
         if self.nonlin_terms:
             d[self.nonrf, -1] = u_1
+            D = d[self.nonrf]  # functions get non-rf part, as in tsolve
             self.z = {}
             for key, (func, T, args) in self.nl_dct.items():
-                z0 = func(d, 0, h, **args)
+                z0 = func(D, 0, h, **args)
                 z = np.empty((z0.shape[0], nt))
                 z[:, 0] = z0
                 self.z[key] = z
